@@ -132,8 +132,29 @@ def _passthrough(ch):
     return 32 <= o <= 127 or ch in '\n\r\t'
 
 
+_prelude_done = False
+
+
+def _prelude():
+    """once per worker process, BEFORE any judged encoding: other encoder objects are created whose rule lists
+    START with a built-in name and continue with further entries (the other built-in set, a custom rule).
+    Encoders created afterwards must not be affected: every encoder expands its own rule list."""
+    global _prelude_done
+    if _prelude_done:
+        return
+    _prelude_done = True
+    try:
+        from pylatexenc import latexencode as le
+        rule = le.UnicodeToLatexConversionRule(le.RULE_DICT, {0x2460: '(1)', ord('a'): 'A'})
+        for rules in (['defaults', 'unicode-xml'], ['unicode-xml', 'defaults'], ['defaults', rule], ['unicode-xml', rule]):
+            le.UnicodeToLatexEncoder(conversion_rules=rules, unknown_char_policy='keep').unicode_to_latex('a\u2460\u0328')
+    except Exception:
+        pass
+
+
 def oracle(c):
     import treedump
+    _prelude()
     d = c['desc']
     s = d['s']
     enc = _encoder(d)
